@@ -9,6 +9,14 @@ script with faults), so the simulator decides the order of checks and which opti
 dropped.  A recording subclass of the real checker (installed through Scenario.setSampleChecker,
 every decision delegated to super()) logs order and verdicts per candidate and re-evaluates all
 requirements after the real decision.  Accepted scenes are judged by simverif.georef.
+
+Program layouts (geogen): classic (random objects in a workspace / container, optionally a fixed
+overlapping pair with random collision flags or a small object embedded in a non-convex solid),
+occlusion (observers with a short visibleDistance, occluding walls -- one possibly far longer than
+the visibleDistance with its centre out of range -- and several targets `visible from` / `not
+visible from` / requireVisible), tower (a tall box minus a polygonal keep-out footprint as
+workspace or regionContainedIn, objects at very different altitudes: region-level caches live
+across the samples and scenes of a history).
 """
 
 import gc
@@ -28,7 +36,12 @@ TECHNIQUE = ("deterministic simulation of the rejection sampler: RNG + requireme
              "history of generate() calls vs independent witness oracle and full re-evaluation")
 BUDGET = {"quick": (400, 52), "thorough": (20000, 1150)}
 RULE = (
-    "one run = one GEO program from the tape (1-4 objects: box / cylinder / cone / spheroid / two-body mesh, constant or random "
+    "one run = one GEO program from the tape; layout weights 8 classic : 2 occlusion : 2 tower.  Occlusion (3D): ego with "
+    "visibleDistance from {8,30,12} (+ optionally an OrientedPoint observer), 1-2 thin occluding walls 2-5 m in front of it (length "
+    "100 with the centre 40-45 m away, or 8 / 3), 2-4 small targets in front of / behind the walls, each `visible from <ego|point>` "
+    "(the first always, so mostly >= 2), `not visible from <observer>`, `with requireVisible True` or unconstrained.  Tower (3D): "
+    "BoxRegion 40x40x320 minus a rectangular or L-shaped polygonal footprint as workspace or as regionContainedIn of some objects, "
+    "2-4 objects at z from {0.5,150,120,260,30} (the first mostly 0.5) or `in workspace`.  Classic: 1-4 objects: box / cylinder / cone / spheroid / two-body mesh, constant or random "
     "sizes and yaw/pitch/roll, positions in/on the workspace, in a container or in a range; rectangular, polygonal (non-convex) "
     "or box workspace; regionContainedIn; allowCollisions False / True / Uniform(True, False); requireVisible + ego with a short "
     "visibleDistance; 0-3 hard and 0-2 soft user requirements over distances, coordinates and headings with and/or/not; 2 in 11 "
@@ -41,24 +54,31 @@ RULE = (
 COMPONENTS = {
     "real": ["scenic parser/compiler (scenarioFromString)", "Scenario.generate / _generateInner rejection loop",
              "WeightedAcceptanceChecker (sortedRequirements, updateMetrics, getRequirementCost) via a recording subclass",
-             "generateDefaultRequirements + requirements.py (Blanket/Intersection/Containment/Visibility/Compiled)",
-             "regions.py containsObject / intersects, object_types.py, visibility.py, trimesh, FCL, shapely"],
+             "generateDefaultRequirements + requirements.py (Blanket/Intersection/Containment/Visibility/NonVisibility/Compiled)",
+             "regions.py containsObject / intersects incl. DifferenceRegion + PolygonalFootprintRegion bounded-footprint cache, "
+             "object_types.py, visibility.canSee with occluders (Object and OrientedPoint observers), trimesh, FCL, shapely"],
     "stub": ["RNG back end behind random.* (seeded Mersenne Twister) and numpy.random global state (seeded from the tape)",
              "clock: scenic.core.sample_checking.time replaced by SimClock (per-evaluation cost from the clock script)"]}
 ASSUMPTIONS = [
     "a violation is only ever reported with a witness and a margin of 1e-3 x object size (point inside two solids, point of an "
     "object outside its container, separating axis with positive gap); configurations within the margin are counted as unjudged",
     "2D containers (RectangularRegion / PolygonalRegion) constrain the footprint only (docs: glossary 'footprint'); a BoxRegion "
-    "container constrains all three coordinates",
-    "visibility is judged by one necessary condition only: a required-visible object whose oriented bounding box is farther than "
-    "1.02 x visibleDistance from the ego's camera cannot be visible (docs: visibility.canSee step 1)",
+    "container constrains all three coordinates; volume.difference(2D region) removes the region's footprint at every altitude",
+    "visibility (docs/reference/visibility.rst: visible iff some ray within visibleDistance reaches the object without hitting an "
+    "occluding object first) is judged by proofs only: a required-visible object (requireVisible / `visible from`) is not visible "
+    "if its oriented bounding box is farther than 1.02 x visibleDistance from the camera, or if the segments from the camera to all "
+    "8 corners of that box pass through one occluding box-shaped object shrunk by the margin (the shadow of a convex body is "
+    "convex); a `not visible from` box object is visible if the segment from an all-round observer to its centre is in range "
+    "(0.98 x visibleDistance) and misses every other object's bounding box grown by the margin (canSee's exact centre ray); "
+    "partially hidden objects, view cones and non-box occluders are not judged",
     "the occupiedSpace mesh of a non-box shape is trusted to be the object (box objects are judged from position, orientation and "
     "width/length/height alone)",
     "user predicates are re-evaluated in plain Python on the sampled position/heading values; values within 1e-7 of a threshold "
     "are unjudged",
     "the scheduler cross-check uses the implementation's own requirement verdicts (falsifiedBy) on every candidate; a rejection is "
     "only contradicted by an oracle proof (separated bounding boxes, all points inside a convex container, plain-Python predicate)",
-    "programs the compiler refuses (InvalidScenarioError for statically impossible layouts) are counted, not judged",
+    "programs the compiler refuses (InvalidScenarioError for statically impossible layouts; RandomControlFlowError raised by "
+    "Scenario.validate() for a fixed-pose object next to a random allowCollisions flag) are counted, not judged",
 ]
 EPS_REL = 1e-3
 TIER = "quick"
@@ -296,7 +316,7 @@ class History:
         if proof:
             self.report("rejected-despite-all-requirements-holding", rejected_by=f"{i}:{kind}", rejection=str(res), oracle=proof,
                         objects=[b.describe() for b in self.bodies(objs)], **info)
-        elif kind != "VisibilityRequirement":
+        elif "Visibility" not in kind:
             self.bump("probe:rejections-not-contradicted")
 
     # ---- per accepted scene: independent oracle ------------------------------------------
@@ -342,17 +362,29 @@ class History:
             elif (np.abs(s) <= m).any():
                 self.bump("containment:near-boundary-unjudged")
         # (c) visibility: one necessary condition
-        if prog["objs"][0]["ego"]:
-            ego = objs[0]
-            vd = float(ego.visibleDistance)
-            for k in range(1, len(B)):
-                need = prog["objs"][k]["visible"] is True or (prog["mode2D"] and prog["objs"][k]["visible"] is None)
-                if need:
-                    d = georef.camera_distance(B[0].c, B[k], prog["mode2D"])
-                    self.bump("visibility:required-visible-checked")
-                    if d > 1.02 * vd + EPS_REL * B[k].size:
-                        self.report("accepted-scene-visibility", object=prog["objs"][k]["name"], camera=[float(x) for x in B[0].c],
-                                    distance_to_bounding_box_at_least=d, visibleDistance=vd, objects=desc())
+        for v in prog["vis"]:
+            k, ob, planar = v["target"], v["observer"], prog["mode2D"]
+            src = ob[1] if ob[0] == "obj" else None
+            cam, vd = (B[src].c, float(objs[src].visibleDistance)) if src is not None else (np.array(ob[1], float), float(ob[2]))
+            T, m = B[k], max(EPS_REL * B[k].size, 1e-3)
+            others = [j for j in range(len(B)) if j not in (k, src)]
+            info = dict(object=prog["objs"][k]["name"], camera=[float(x) for x in cam], visibleDistance=vd, objects=desc())
+            if v["positive"]:
+                d = georef.camera_distance(cam, T, planar)
+                self.bump("visibility:required-visible-checked")
+                if d > 1.02 * vd + m:  # too far (docs: visibility.canSee step 1)
+                    self.report("accepted-scene-visibility", what="required visible but out of range", distance_to_bounding_box_at_least=d, **info)
+                for j in others if not planar else []:  # completely hidden behind one occluding box
+                    if B[j].shape == "box" and objs[j].occluding and georef.shadowed(cam, T, B[j], m):
+                        self.report("accepted-scene-visibility", what="required visible but every line of sight to its bounding box passes "
+                                    "through an occluding object", occluder=prog["objs"][j]["name"], **info)
+                        break
+            elif T.shape == "box" and not planar:  # required invisible, yet its centre is in plain view of an all-round observer
+                self.bump("visibility:required-invisible-checked")
+                if (np.linalg.norm(T.c - cam) < 0.98 * vd - m and (np.abs(T.local(cam[None])[0]) > T.h + m).any()
+                        and not any(georef.seg_hits(cam, T.c[None], B[j], -m)[0] for j in others)):
+                    self.report("accepted-scene-visibility", what="required not visible, but the segment from the camera to its centre is in "
+                                "range and clear of every other object's bounding box (grown by the margin)", **info)
         # (d) user predicates: hard ones and the soft ones active for this sample
         ureqs = self.scenario.userRequirements
         for k, q in enumerate(prog["reqs"]):
@@ -409,8 +441,8 @@ def run(tape):
         rec.hook, rec.clock = H.on_candidate, clock
         clock.cost_fn = lambda n: cost_of(script, H.current_req(), H.nreq, H.call, H.fired)
         nonbox = sum(o["shape"] != "box" for o in prog["objs"])  # weight: rough cost of one candidate (deterministic)
-        weight = 1 + H.kinds.count("VisibilityRequirement") * (3 + 3 * nonbox) + 3 * sum(o["shape"] in ("mesh", "lmesh") for o in prog["objs"]) \
-            + 2 * sum((prog["ws"] if o["cont"] is None else prog["conts"][o["cont"]])["kind"] == "box" for o in prog["objs"])
+        weight = 1 + sum("Visibility" in k for k in H.kinds) * (3 + 3 * nonbox) + 3 * sum(o["shape"] in ("mesh", "lmesh") for o in prog["objs"]) \
+            + 2 * sum((prog["ws"] if o["cont"] is None else prog["conts"][o["cont"]])["kind"] in ("box", "diff") for o in prog["objs"])
         cap = max(60, (900 if TIER == "quick" else 3000) // weight)
         H.full_cap = cap // 4
         for H.call in range(ncalls):
